@@ -409,6 +409,43 @@ def r12_9(ctx, fx):
     ctx.floor(rid, n, 20, "writes of the receiver's own bounds in members with operands")
 
 
+_BOUND = re.compile(r"^(?:\w+\.)?(?:lower|upper)\(\)$|^f_(?:lower|upper)\(\w+\)$")
+
+
+def _raw_bound_comparisons(f):
+    out = []
+    for x in f.walk():
+        if x["k"] in ("binop", "ocall") and x.get("op") in ("<", ">", "<=", ">=", "==", "!="):
+            cs = [f.deref(c) for c in x.get("c", ())][-2:]
+            if len(cs) == 2 and all(c is not None for c in cs):
+                a, b = f.text(cs[0]).replace(" ", ""), f.text(cs[1]).replace(" ", "")
+                if _BOUND.match(a) and _BOUND.match(b):
+                    out.append((x, a, b))
+    return out
+
+
+def r12_10(ctx, fx):
+    rid = "R12.10"
+    ctx.rule(rid, "bounds are compared with their properties: inside the members of Interval two bounds are never compared as plain numbers (`y.upper() <= upper()`): whether a bound implies, excludes or meets another depends on their OPEN flags, which only the comparisons of the boundary layer (lt / le / gt / ge / eq with the two info objects) take into account — a plain `<=` calls [0,3) implied by the context [1,3] and drops the strict bound. Expected instances on the library: zero; the rule proves itself on drivers/positive_r12_7.cc on every run")
+    u = F.driver_unit("positive_r12_7.cc", file_re=r"positive_r12_7\.cc")
+    u.root2 = os.path.join(F.VERIF, "drivers")
+    pos = ctx.extract([u])
+    hits = [m for g in pos.functions for m in _raw_bound_comparisons(g)]
+    ctx.require(rid, len(hits) >= 1, "the positive example in drivers/positive_r12_7.cc is no longer reported: the rule is blind")
+    seen = set()
+    k = 0
+    for f in fx.functions:
+        if "Interval_" not in f.file or f.clsn != "Interval" or (f.relfile, f.line) in seen or not f.flag("pattern"):
+            continue
+        seen.add((f.relfile, f.line))
+        k += 1
+        for x, a, b in _raw_bound_comparisons(f):
+            ctx.violation(rid, "%s `%s` (line %s)" % (f.name, f.text(x)[:50], x.get("l")), f.where(x), "the bounds `%s` and `%s` are compared as plain numbers: when the values coincide the answer depends on which of them is open" % (a, b))
+    ctx.count(rid, "Interval members scanned", k)
+    ctx.ok(rid, "positive example reported (%d raw comparisons of bounds)" % len(hits), "drivers/positive_r12_7.cc")
+    ctx.floor(rid, k, 25, "Interval members scanned")
+
+
 def run(ctx):
     ctx.explanation = ("C12 side discipline of the interval layer on the template patterns of Interval_* and Boundary_defs.hh: consistent (side, value, info) triples, "
                        "direction derived from the side of the bound written, results combined; decides the discipline, not the sign case analysis of mul/div or linearisation")
@@ -424,6 +461,7 @@ def run(ctx):
     r12_7(ctx, fx)
     r12_8(ctx, fx)
     r12_9(ctx, fx)
+    r12_10(ctx, fx)
     from rules import idioms
     ctx.rule("R12.5", "copies agree: the per-format arms of the switches of the floating-point layer (compute_absolute_error caches one result per analysed format and reads the traits of that format) are copies of one another; in each arm the identifiers repeat exactly as in its siblings — the slot tested is the slot returned and the slot filled, and the three traits come from one struct")
     fxf = ctx.extract([F.driver_unit("all_headers.cc", file_re=r"(Float_(templates|inlines)|linearize|Linear_Form_templates|Interval_templates)\.hh")])
